@@ -1,6 +1,10 @@
 pub mod worker;
 pub mod c01;
+pub mod c02;
+pub mod c04;
 pub mod c10;
+pub mod c17;
+pub mod c19;
 
 use crate::common::*;
 
@@ -12,7 +16,11 @@ pub const PROPS: [&str; 19] = [
 pub fn run(ctx: &Ctx) -> i32 {
     match ctx.prop {
         "C01" => c01::run(ctx),
+        "C02" => c02::run(ctx),
+        "C04" => c04::run(ctx),
         "C10" => c10::run(ctx),
+        "C17" => c17::run(ctx),
+        "C19" => c19::run(ctx),
         other => {
             println!("INCONCLUSIVE property={} reason=monitor-not-built", other);
             2
